@@ -140,7 +140,7 @@ func runC15(c *eng.Ctx) {
 		type span struct{ lo, hi int64 }
 		writer := map[string]span{}
 		var bufAlloc ssa.Value
-		for _, b := range cl.Blocks {
+		for _, b := range eng.BlocksT(cl) {
 			for _, in := range b.Instrs {
 				call, ok := in.(*ssa.Call)
 				if !ok {
@@ -204,7 +204,7 @@ func runC15(c *eng.Ctx) {
 		}
 		var offSpan, keySpan, magicSpan span
 		found := 0
-		for _, b := range cl.Blocks {
+		for _, b := range eng.BlocksT(cl) {
 			for _, in := range b.Instrs {
 				call, ok := in.(*ssa.Call)
 				if !ok {
@@ -235,7 +235,7 @@ func runC15(c *eng.Ctx) {
 		}
 		c.Check(found == 3, "footer-fields", nil, cl, "the footer stores the offsets position, the keys position and the magic number", fmt.Sprint(found))
 		var verAt int64 = -1
-		for _, b := range cl.Blocks {
+		for _, b := range eng.BlocksT(cl) {
 			for _, in := range b.Instrs {
 				if st, ok := in.(*ssa.Store); ok {
 					if ia, ok := st.Addr.(*ssa.IndexAddr); ok && ia.X == bufAlloc {
@@ -259,7 +259,7 @@ func runC15(c *eng.Ctx) {
 		c.Check(mat == magicSpan.lo, "magic-offset-agrees", nil, in, "the reader looks for the magic number where the builder put it", fmt.Sprintf("reader %d, writer %d", mat, magicSpan.lo))
 		// the two Uint32 reads
 		reads := map[int64]string{}
-		for _, b := range in.Blocks {
+		for _, b := range eng.BlocksT(in) {
 			for _, ins := range b.Instrs {
 				call, ok := ins.(*ssa.Call)
 				if !ok || !strings.HasSuffix(strings.Join(p.CalleeKeys(call), ""), "littleEndian.Uint32") {
@@ -272,7 +272,7 @@ func runC15(c *eng.Ctx) {
 				_, off := eng.SplitConstAdd(sl.Low)
 				// which variable does it feed: used as low bound of offsetsBlock (posOfOffset) or as its high bound / keys start (posOfKeys)
 				role := "?"
-				for _, b2 := range in.Blocks {
+				for _, b2 := range eng.BlocksT(in) {
 					for _, i2 := range b2.Instrs {
 						if s2, ok := i2.(*ssa.Slice); ok && strings.HasSuffix(p.Desc(s2.X), ".fullBlock") {
 							if s2.Low != nil && s2.High != nil && eng.DependsOn(s2.Low, func(x ssa.Value) bool { return x == ssa.Value(call) }) {
@@ -328,7 +328,7 @@ func runC15(c *eng.Ctx) {
 		}
 		// equality must be accepted: look for the branch conditions themselves
 		okIncl := 0
-		for _, b := range f.Blocks {
+		for _, b := range eng.BlocksT(f) {
 			for _, in := range b.Instrs {
 				if bo, ok := in.(*ssa.BinOp); ok {
 					d := p.Desc(bo)
@@ -341,7 +341,7 @@ func runC15(c *eng.Ctx) {
 		}
 		c.Check(okIncl >= 2 && !bad, "bounds-inclusive", nil, f, "both bounds are inclusive (a key equal to a file's min or max key is found)", fmt.Sprintf("%d inclusive comparisons", okIncl))
 		rng := false
-		for _, b := range f.Blocks {
+		for _, b := range eng.BlocksT(f) {
 			for _, in := range b.Instrs {
 				if ia, ok := in.(*ssa.IndexAddr); ok && eng.DependsOnField(ia.X, "kv/version.version.levels") {
 					rng = true
